@@ -180,6 +180,11 @@ class VList(V):
 
 
 @dataclass
+class VDict(V):                     # a dict display {k: v, ...}: an immutable list of pairs handed to a contract
+    items: list
+
+
+@dataclass
 class VObj(V):
     addr: int                      # heap address of a HeapObj
 
@@ -718,6 +723,15 @@ class Engine:
                 out.append((s, VList(s.alloc(ListObj(v)))))
         return out
 
+    def ev_Dict(self, e, st):
+        if any(k is None for k in e.keys):
+            raise Undecided("dict display with ** unpacking")
+        n = len(e.keys)
+        out = []
+        for s, v in self.ev_seq(list(e.keys) + list(e.values), st):
+            out.append((s, v if isinstance(v, VExc) else VDict(list(zip(v[:n], v[n:])))))
+        return out
+
     def ev_JoinedStr(self, e, st):
         # f-strings only feed exception messages in the functions under contract: opaque string
         return [(st, VStr(fresh("fstr", S)))]
@@ -1224,6 +1238,29 @@ class Engine:
                 results = nxt
             out += results
         return out
+
+    def st_Delete(self, stmt, st):
+        """`del m[k]` on a map view (through the __delitem__ contract)"""
+        results = [(st, None)]
+        for tgt in stmt.targets:
+            if not isinstance(tgt, ast.Subscript):
+                raise Undecided("del of something other than a subscript")
+            nxt = []
+            for s0, sig0 in results:
+                if sig0 is not None:
+                    nxt.append((s0, sig0))
+                    continue
+                for s, vals in self.ev_seq([tgt.value, tgt.slice], s0):
+                    if isinstance(vals, VExc):
+                        nxt.append((s, ("raise", vals)))
+                        continue
+                    c, k = vals
+                    if not isinstance(c, VMap):
+                        raise Undecided("del on something other than a map view")
+                    for s2, r in self.call_method(c, "__delitem__", [k], {}, s):
+                        nxt.append((s2, ("raise", r) if isinstance(r, VExc) else None))
+            results = nxt
+        return results
 
     def st_AnnAssign(self, stmt, st):
         if stmt.value is None:
